@@ -398,7 +398,8 @@ FFILES = {
     'dangling.m': 'import "a.m" item b3 -> nowhere',
     'imports-broken.m': 'import "lib.m" import "syntax.m" item b4 -> l1',
 }
-FOPS = ['a.m', 'c.m', 'missing-import.m', 'syntax.m', 'dangling.m', 'imports-broken.m']
+# './x' and 'rel:x' are other spellings of the same file: with a './' segment, and relative to the working directory
+FOPS = ['a.m', 'c.m', 'missing-import.m', 'syntax.m', 'dangling.m', 'imports-broken.m', './a.m', 'rel:c.m', 'rel:lib.m']
 # search-path configuration: the same import name means different files for models in different directories
 SP_FILES = {
     'a/main.m': 'import "common.m" item x -> ca',
@@ -435,7 +436,7 @@ RR_OPS = list(RR_FILES)
 
 def file_outcome(mm, path):
     from textx.exceptions import TextXError
-    d = os.path.dirname(path)
+    d = os.path.dirname(os.path.abspath(path))
     try:
         m = mm.model_from_file(path)
     except TextXError as e:
@@ -485,14 +486,27 @@ def file_history_side(provider, global_repo, hist):
             with open(os.path.join(tmp, fn), 'w') as f:
                 f.write(text)
         subject = mk()
+        cwd = os.getcwd()
+        os.chdir(tmp)
+
+        def spelled(fn):
+            if fn.startswith('rel:'):
+                return fn[4:]
+            if fn.startswith('./'):
+                return os.path.join(tmp, '.', fn[2:])
+            return os.path.join(tmp, fn)
         for i, fn in enumerate(hist):
-            a = file_outcome(subject, os.path.join(tmp, fn))
-            b = file_outcome(mk(), os.path.join(tmp, fn))
+            a = file_outcome(subject, spelled(fn))
+            b = file_outcome(mk(), spelled(fn))
             if a != b:
                 return {'step': i, 'file': fn, 'after_history': a, 'fresh': b}
         return None
     finally:
         import shutil
+        try:
+            os.chdir(cwd)
+        except Exception:  # noqa
+            pass
         shutil.rmtree(tmp, ignore_errors=True)
 
 
